@@ -77,6 +77,12 @@ CHECKS = {
             "(all weekday/month/day-of-month >= 28/co-class month, year, day specs + seeded hour/minute/second specs, chains of specs); every "
             "result is rounded again to check idempotence through the tool",
             "inputs are month ends, leap days and boundary windows x 6 times of day; results outside 1601..4095 are not judged", "5 C16"),
+    "C17": ("model_checking", "TLA+ Expr (De Morgan push-down + evaluator refines Boolean Eval for all trees; pinned mechanism refuted) model-checked; every tree run through dgrep / dgrep -v under ASan and validated line by line by GrepTrace",
+            "Expr.tla is model-checked over every tree of <= 3|4 leaves, 3 atoms, all negation placements and valuations; every emitted tree is "
+            "printed in explicit and minimal parenthesisation with four atom sets (six operators, date and specifier operands) and run through "
+            "the real dgrep and dgrep -v built with ASan+bounds; GrepTrace.tla accepts a run only if exactly the Eval-true lines come out, "
+            "unchanged, in order, and the exit status shows no crash or sanitizer report",
+            "'programs' are exhaustive up to the size bound (quick: a seeded quarter of the 7062 trees); atom truth values per line are computed by the orchestrator", "5 C17"),
 }
 NOT_APPLICABLE = []
 
